@@ -705,6 +705,16 @@ struct Lower
                 s += ", " + initInto(*it, t + "." + fieldName(*fi));
             return s + ", " + t + ")";
         }
+        // type traits (__is_pod, __is_trivial, ...), sizeof... and other compile-time integral expressions: the value clang computes
+        if(isa<TypeTraitExpr>(E) || isa<SizeOfPackExpr>(E) || isa<CXXNoexceptExpr>(E))
+        {
+            Expr::EvalResult R;
+            if(!E->isValueDependent() && E->EvaluateAsRValue(R, C) && !R.HasSideEffects && R.Val.isInt())
+            {
+                if(E->getType()->isBooleanType()) return R.Val.getInt().getBoolValue() ? "((_Bool)1)" : "((_Bool)0)";
+                return lit(R.Val.getInt(), E->getType());
+            }
+        }
         die("rvalue kind " + std::string(E->getStmtClassName()), E, &C);
     }
 
